@@ -114,7 +114,14 @@ STUB_PRECONDITIONS = {
 def stub(I, st, callee, target, args, ctx):
     """a local function deliberately not entered (analysed under its own root): opaque Result"""
     key = target["def"]
-    st.event("call", key, tuple(valkey(a) for a in args))
+    def argkey(a):
+        if isinstance(a, VRef):
+            try:
+                return ("refto", valkey(I.read_ref(st, a)))
+            except Exception:
+                return valkey(a)
+        return valkey(a)
+    st.event("call", key, tuple(argkey(a) for a in args))
     # assume/guarantee: the callee is analysed as a root of its own under stated assumptions on its
     # arguments; the call site must establish them
     pre = STUB_PRECONDITIONS.get(key.split("::", 1)[-1])
@@ -2338,3 +2345,12 @@ for _n, _c in _ASCII_CLASSES.items():
     for _t in ("u8", "char"):
         EXT["core:%s::%s" % (_t, _n)] = _ascii_pred(_c)
         CONTRACT["core:%s::%s" % (_t, _n)] = "total"
+
+
+@ext("core:RangeInclusive<Idx>::new")
+def h_range_inclusive_new(I, st, callee, target, args, ctx):
+    # a..=b iterates like a..b+1 (the bound is only compared with, never stored in the index type)
+    lo, hi = args
+    if not (isinstance(lo, VInt) and isinstance(hi, VInt)):
+        raise Unanalysable("RangeInclusive::new(%r, %r)" % (lo, hi))
+    return [(st, VAdt("core::ops::range::Range", 0, (lo, VInt(hi.w, hi.s, lin=lin_of(st, hi) + 1))))]
